@@ -28,7 +28,7 @@ Print Assumptions C16_rollout_schema.
 
 (* the schema predicate is not vacuous: it rejects an object that lacks a required list *)
 Theorem C16_schema_rejects_missing_list : schema_flag (JObj [(s "key", JStr [])]) = false.
-Proof. reflexivity. Qed.
+Proof. exact schema_rejects_missing_list. Qed.
 Print Assumptions C16_schema_rejects_missing_list.
 
 (* the property names in the source (gen/Tables.v, regenerated on every run): every legacy property is written by the
